@@ -216,6 +216,12 @@ PROPS["C16"]["level_text"] += (
     "truthiness, is counted), C16_every_section_shows_the_printed_value (the printed data, the --json section and the --dis-after code object "
     "all show the same value under every flag combination), C16_sections_are_the_source; the four ways a source becomes a code object are compared "
     "verbatim with the pinned text (any other text: the translator declines and the differential run alone decides)")
+PROPS["C10"]["level_text"] += (
+    "; stage 1 (the bytes themselves) is tied by proof too: C10_stage1_is_the_source - the comprehension of bytes_to_items and the expression "
+    "of items_to_bytes, re-translated into Gen/SrcStage1.v, equal the model for all byte strings and item lists, IndexError / ValueError included")
+PROPS["C13"]["level_text"] += (
+    "; the base against which the decoding loop resolves relative jumps (third argument of to_arg) is translated too: "
+    "C13_relative_jump_base_is_the_source (it is next_offset - the offset after the instruction and its prefixes - for all inputs)")
 PROPS["C04"]["level_text"] += (
     "; the four functions of _args.py are tied to the source by proof for ALL inputs (C04_args_functions_are_the_source: Gen/SrcArgs.v, "
     "re-translated on every run, equals Model/Args.v)")
